@@ -607,6 +607,19 @@ class Engine:
 
   def e_BoolOp(self, ctx, e):
     is_and = isinstance(e.op, ast.And)
+    if ctx.tags.get('$nobranch'):
+      # pure boolean operands (pointwise comprehensions): no forking; each
+      # operand is evaluated under the guard of the previous ones
+      acc = []
+      base = len(ctx.pc)
+      try:
+        for x in e.values:
+          t = self.truth(ctx, self.eval(ctx, x))
+          acc.append(t)
+          ctx.pc.append(zbool(t) if is_and else zbool(znot(t)))
+      finally:
+        del ctx.pc[base:]
+      return zand(*acc) if is_and else zor(*acc)
     v = None
     for i, x in enumerate(e.values):
       v = self.eval(ctx, x)
@@ -1767,6 +1780,8 @@ class TypeTag(Val):
 
 
 def _conv_tuple(ctx, v=()):
+  if isinstance(v, SeqV):
+    return v  # an immutable sequence already
   return tuple(ctx.engine.concrete_items(ctx, v))
 
 
